@@ -327,11 +327,53 @@ func c01(c *core.Ctx) {
 					}
 					key := typeKey(nt) + "." + f.Name() + ":success-needs-one-decode"
 					bad := ""
+					// a step function with a (handled bool, err error) protocol: its (false, …) returns decide nothing —
+					// provided every caller looks at the error only where handled was true
+					handledProto := f.Signature.Results().Len() == 2 && core.TypeStr(f.Signature.Results().At(0).Type()) == "bool" && inFam[f]
+					if handledProto {
+						for g := range inFam {
+							if g == nil || g.Blocks == nil {
+								continue
+							}
+							for _, call := range core.CallsIn(g, func(_ *ssa.Call, ci core.CallInfo) bool { return ci.Static == f }) {
+								var hv, ev ssa.Value
+								for _, ref := range core.Refs(call) {
+									if ex, isEx := ref.(*ssa.Extract); isEx {
+										if ex.Index == 0 {
+											hv = ex
+										} else {
+											ev = ex
+										}
+									}
+								}
+								if hv == nil {
+									handledProto = false
+									continue
+								}
+								if ev == nil {
+									continue
+								}
+								for _, ref := range core.Refs(ev) {
+									if _, isDbg := ref.(*ssa.DebugRef); isDbg {
+										continue
+									}
+									if !core.GuardedBy(ref, func(fc core.Fact) bool { return fc.Op == token.ILLEGAL && !fc.Neg && fc.X == hv }) {
+										handledProto = false
+									}
+								}
+							}
+						}
+					}
 					for _, r := range core.ErrReturns(f) {
 						ev := r.Results[len(r.Results)-1]
 						cl := core.ClassifyErr(ev, r)
 						if cl == core.ErrNonNil {
 							continue
+						}
+						if handledProto {
+							if hb, isC := core.ConstBool(r.Results[0]); isC && !hb {
+								continue
+							}
 						}
 						// is this a success return (has a nil leaf, or returns a decode/probe result)?
 						if !core.MustPass(core.Entry(f), r, isDecode) {
